@@ -539,9 +539,14 @@ class TaskScenario(ScenarioData):
                             if gapduration:
                                 # gapduration is calendar time (e.g., "4h" = 4 hours)
                                 gap_hours = self._parse_duration(gapduration, calendar=True)
+                                from datetime import datetime as _dt
                                 from datetime import timedelta
 
-                                dep_time = dep_time + timedelta(hours=gap_hours)
+                                try:
+                                    dep_time = dep_time + timedelta(hours=gap_hours)
+                                except OverflowError:
+                                    # A gap beyond the calendar: a bound that can never be served
+                                    dep_time = _dt.max.replace(microsecond=0)
                             elif gaplength:
                                 # gaplength is working time - need to find next working slot after gap
                                 gap_hours = self._parse_duration(gaplength)
